@@ -237,11 +237,21 @@ def answer (line : String) : String :=
         | .fn1 .sum a | .fn2 .sum a _ =>
           (match Spec.sem Spec.foSum a c with | .ok v => Spec.sumNodeInvalid c.doc v | _ => false)
         | _ => false
+      -- hypothesis of theorem `min_max_fo_literal` on a top-level fn:max / fn:min: the promotion to
+      -- xs:double is monotone on the (converted) argument values; `m=0` reports a failure
+      let mono := match e with
+        | .fn1 .min a | .fn1 .max a =>
+          (match Spec.sem Spec.foSum a c with
+           | .ok v => (match Spec.castUntyped (v.map (Spec.atomized c.doc)) with
+                       | .ok w => Spec.promotionMonotoneOn w
+                       | _ => true)
+           | _ => true)
+        | _ => true
       -- the outcomes XPath permits (Spec.Permitted): the lazy value, the reachable error codes
       let lzv := (Spec.lz Spec.foSum e c).force
       let cs := (Spec.codes Spec.foSum e c).eraseDups
       let errs := if cs.isEmpty then "_" else ",".intercalate (cs.map showErr)
-      s!"model={showR m} spec={showR s} k={if e.loopVarInRange then 1 else 0} u={if u then 1 else 0} lazy={showR lzv} errs={errs}"
+      s!"model={showR m} spec={showR s} k={if e.loopVarInRange then 1 else 0} u={if u then 1 else 0} m={if mono then 1 else 0} lazy={showR lzv} errs={errs}"
   | some (_, _ :: _), _, _, _, _ => "bad-expr-trailing"
   | none, _, _, _, _ => "bad-expr"
   | _, _, _, _, _ => "bad-line"
